@@ -8,11 +8,11 @@ require (
 	github.com/google/go-tpm v0.9.1
 	github.com/google/uuid v1.6.0
 	github.com/pomerium/webauthn v0.0.0
+	golang.org/x/crypto v0.19.0
 )
 
 require (
 	github.com/x448/float16 v0.8.4 // indirect
-	golang.org/x/crypto v0.19.0 // indirect
 	golang.org/x/sys v0.17.0 // indirect
 )
 
